@@ -10,7 +10,7 @@ META = {
              'either file fails (all j), flush fails, close fails; (iii) an object whose pickling raises TypeError or SystemExit (a failure that is not an Exception) / a non-JSON-able object, at depth '
              '0/2/5 of a small or ~300 KiB result; x cache format {pickle, json, pickle with a task type whose post_init rewrites a parameter} x {first save, overwrite of an '
              'existing entry via bust_cache} x result shape {small, nested, big} x victim {serial caller, fork '
-             'worker}. Oracle on the post-state (same process and a fresh Lab): the victim is absent from the '
+             'worker}. Oracle on the post-state, asked of the very Lab that ran the failing save (it has looked at the entry before the run) and of a fresh Lab: the victim is absent from the '
              'returned dict; if is_cached or cached_tasks report it, run_tasks must load it and return the old or '
              'the new value; cached_tasks must not raise; the bystander entry stays loadable. Distinct by (fault '
              'point, format, mode, shape, victim); a case counts only if its fault actually fired (event log).'),
@@ -79,9 +79,20 @@ def run_case(case, rep=None, count_only=False):
         b1 = Built(spec)
         res = None
         exc = None
+        # the Lab that suffers the failing save has looked at the entry before (True in overwrite mode, False for a
+        # first save) and is asked again afterwards: what it answers must follow what its workers did to the storage
+        the_lab = lab(case['backend'])
+        if not count_only:
+            try:
+                seen_before = the_lab.is_cached(Built(spec).inst('v'))
+                if seen_before != (case['mode'] == 'overwrite'):
+                    bad.append(('pre-state-wrong', f'before the run is_cached(v) is {seen_before} in mode {case["mode"]}'))
+                the_lab.cached_tasks([TYPES[case['cache']]])
+            except BaseException as ex:   # noqa
+                bad.append(('is_cached-raises', f'before the run: {type(ex).__name__}: {ex}'))
         try:
-            res = lab(case['backend']).run_tasks([b1.inst('v'), b1.inst('b')], bust_cache=(case['mode'] == 'overwrite'),
-                                                  disable_progress=True, disable_top=True)
+            res = the_lab.run_tasks([b1.inst('v'), b1.inst('b')], bust_cache=(case['mode'] == 'overwrite'),
+                                    disable_progress=True, disable_top=True)
         except BaseException as ex:   # noqa
             exc = ex
         evs = events.read_events(ctl)[pre:]
@@ -117,8 +128,9 @@ def run_case(case, rep=None, count_only=False):
                 bad.append(('bystander-lost', 'the bystander task is missing from the result'))
         # ---- post state
         engine.write_plan(ctl, 2)
-        for fresh in (False, True):
-            lab2 = lab('serial')
+        for which, lab2 in (('the Lab that ran the failing save', the_lab), ('a fresh Lab', lab('serial'))):
+            if rep is not None:
+                rep.count('post_state_verdicts')
             b2 = Built(spec)
             v = b2.inst('v')
             try:
@@ -144,7 +156,7 @@ def run_case(case, rep=None, count_only=False):
                 reexec = any(e['k'] == 'start' for e in events.read_events(ctl)[pre2:])
                 if got is None or reexec:
                     bad.append(('reported-cached-but-unloadable', f'after a save that failed at {out["fired"]} the entry '
-                                f'is reported (is_cached={reported}, cached_tasks={listed}) but loading it fails; '
+                                f'is reported by {which} (is_cached={reported}, cached_tasks={listed}) but loading it fails; '
                                 f'entry state: {fs_signature(store, v.cache_key)}'))
                 elif tuple(got) not in {tuple(v1)} | ({tuple(v0)} if v0 else set()):
                     bad.append(('reported-cached-mis-load', f'entry loads {got}, neither old {v0} nor new {v1}'))
@@ -164,7 +176,8 @@ def run_case(case, rep=None, count_only=False):
                 r3 = lab2.run_tasks([bb], disable_progress=True, disable_top=True)
                 if bb not in r3 or tuple(base_of(r3[bb])) != tuple(val('b', 1)):
                     bad.append(('bystander-entry-damaged', f'bystander loads {r3.get(bb)}'))
-            break
+            if lab2 is the_lab and case['backend'] != 'serial':
+                engine.reap_children()
         return out
     finally:
         engine.reap_children()
